@@ -33,10 +33,12 @@ struct Cfg {
 }
 
 fn report(ctx: &mut Ctx, family: &str, kind: &str, input: &str, class: &str, detail: &str) {
+    // a metamorphic case is replayed against its base sentence
+    let base = ctx.current_base.clone();
     ctx.out.violation(
         vkip::c15_signature("grammar", class, &format!("{family}:{kind}")),
         format!("{class} [{family}, {kind}] input {input:?}: {detail}"),
-        json!({"case": input}),
+        json!({"case": input, "base": base, "family": family, "kind": kind}),
     );
 }
 
@@ -99,6 +101,7 @@ fn sentence_cases(ctx: &mut Ctx, cfg: &Cfg, s: &Sentence, foreign: &[Tok]) {
     let toks = &s.toks;
     let fam = s.family;
     let base_text = tok::render(toks);
+    ctx.current_base = Some(base_text.clone());
     let Some(base) = check_plain(ctx, fam, "base", &base_text) else {
         // resumed past this sentence's base: recompute it silently for the variants
         let base = vkip::oracle::run_kip(&base_text);
@@ -212,10 +215,28 @@ fn variants_and_mutants(ctx: &mut Ctx, cfg: &Cfg, s: &Sentence, foreign: &[Tok],
 
 fn child_work(ctx: &mut Ctx, shard: &Value) {
     if let Some(one) = shard.get("one").and_then(|v| v.as_str()) {
-        // a replayed case is a plain text: run every single-input check on it, and the
-        // metamorphic relation cannot be re-derived from text alone, so say what it parses to
-        let r = check_plain(ctx, "replay", "replay", one);
-        ctx.out.notes.push(format!("replayed input parses to: {}", r.map(|r| r.brief()).unwrap_or_default()));
+        // a replayed case: every single-input check, and the metamorphic relation against its base
+        let family = shard["family"].as_str().unwrap_or("replay").to_string();
+        let kind = shard["kind"].as_str().unwrap_or("replay").to_string();
+        let is_variant = !matches!(
+            kind.as_str(),
+            "base" | "delete" | "duplicate" | "swap" | "truncate" | "splice-replace" | "splice-insert" | "replay"
+        );
+        match shard.get("base").and_then(|v| v.as_str()) {
+            Some(base_text) if is_variant => {
+                ctx.current_base = Some(base_text.to_string());
+                let base = vkip::oracle::run_kip(base_text);
+                let cfg = Cfg {
+                    full_variants: true,
+                    splice_per_pos: 0,
+                    splice_insert: false,
+                };
+                check_variant(ctx, &cfg, &family, &kind, &base, one);
+            }
+            _ => {
+                check_plain(ctx, &family, &kind, one);
+            }
+        }
         return;
     }
     let depth = shard["depth"].as_u64().unwrap() as usize;
@@ -255,8 +276,8 @@ fn main() {
     if let Some(file) = run.replay_file.clone() {
         let doc: Value = serde_json::from_slice(&std::fs::read(&file).expect("replay file")).expect("replay json");
         let case = doc["replay"]["case"].as_str().expect("replay.case").to_string();
-        // a metamorphic violation is replayed by comparing with the base text when the artefact has one
-        sup::supervise(&mut run, vec![json!({"one": case})], stack, "C15:grammar:abort");
+        let shard = json!({"one": case, "base": doc["replay"]["base"], "family": doc["replay"]["family"], "kind": doc["replay"]["kind"]});
+        sup::supervise(&mut run, vec![shard], stack, "C15:grammar:abort");
         run.finish();
     }
     let depth: usize = std::env::var("VKIP_DEPTH")
